@@ -29,8 +29,10 @@ PROPS = {
                    'first-chunk length of a recursive RFC 1035 4.1.4 reference decoder or an error when it fails; that '
                    'validate/parse_uncompressed_name agree with the RFC 1035 3.1 reference on acceptance and length; that '
                    'skip_compressed_name agrees with the first-chunk reference and never reports more octets than the buffer holds; '
-                   'no index/arith/ArrayVec-capacity panic; and that both call sites of unsafe new_boxed_name meet its safety contract.',
-        level_note='Trusted: Verus/Z3; prelude stand-ins for ArrayVec, Result::or, u16::from_be_bytes; the body of unsafe new_boxed_name; '
+                   'no index/arith/ArrayVec-capacity panic; that both call sites of unsafe new_boxed_name meet its safety contract; and that the six '
+                   'public wrappers in src/name/mod.rs (Name::try_from_compressed, skip_compressed, try_from_uncompressed(_all), '
+                   'validate_uncompressed(_all)), extracted verbatim, satisfy the same reference statements (dec / skip_from / ulen).',
+        level_note='Trusted: Verus/Z3; prelude stand-ins for ArrayVec, Result::or/and, u16::from_be_bytes; the body of unsafe new_boxed_name; '
                    'slices no longer than isize::MAX. Function bodies are extracted verbatim from /repo on every run; rewrite rules fired are listed in the evidence.',
         verus=[dict(unit='name_wire', which='all')],
         kani=[],
@@ -50,9 +52,7 @@ PROPS = {
                           'reference decoders written from RFC 1035 3.1/4.1.4 (bounded/src/wire_ref.rs): no panic, same acceptance, same name '
                           '(wire form and label list), same first-chunk length; error kinds not compared')],
         unverified=['body of unsafe fn new_boxed_name (allocation, copy_nonoverlapping, fat-pointer cast): its documented '
-                    'safety precondition is proved at every extracted call site, the body itself is trusted',
-                    'the one-line public wrappers Name::try_from_compressed / skip_compressed / validate_* in src/name/mod.rs '
-                    'are direct calls of the verified functions and are not extracted'],
+                    'safety precondition is proved at every extracted call site, the body itself is trusted'],
         assumptions=['slice lengths are <= isize::MAX (Rust allocation rule), stated as a precondition',
                      'arrayvec::ArrayVec behaves as its stand-in contract states'],
     ),
